@@ -2,6 +2,7 @@ import DmrVerif.Props.C02a
 import DmrVerif.Props.C02b
 import DmrVerif.Props.C02c
 import DmrVerif.Props.C06
+import DmrVerif.Lemmas.BptcHist
 
 /-!
 # C02 — BPTC(196,96) returns the sent 96 bits for every code word and every correctable error
@@ -17,6 +18,13 @@ both passes commute with adding a product code word (syndrome linearity); an err
 is removed (every row holds ≤ 1 error, or all errors sit in one row and then every column holds ≤ 1
 error after the row pass); the info bits are read from the data block of the table.  The finite facts
 about the interleaving tables are decided by the kernel in `C02a`–`C02c`.
+
+The last section states the same property over **histories of calls** (`Model/BptcHist.lean`): the class is
+used as a function, so whatever was encoded, decoded, repaired, filled or overwritten before, and whatever
+happens between `encode` and the decoder, the kept code word decodes to the message.  In the model that
+follows from the definitions plus one fact about the code (`fill_forgets_table`: the fill loop rewrites
+every cell of the table it is given); the correspondence run checks that the Python class behaves like
+this model on interleaved histories of every entry point.
 -/
 
 namespace Dmr.C02
@@ -104,6 +112,70 @@ theorem correct_le2 (m : Bits) (h : m.length = 96) (e : Bits) (he : e.length = 1
     rw [xorBits_length, encodeCore_length, he]; exact Nat.min_self 196
   simp [deinterleaveDataBits, hl, data_repair_le2 tables_ok m e h he hw]
 
+/-! ## histories of calls: what was called before does not matter -/
+
+/-- `fill_encoding_table` rewrites every cell: whatever 13×15 table it is given (a new one, one that was
+used before, one the caller scribbled on), the result is the table it builds from an all-zero one -/
+theorem fill_forgets_table (t x : Bits) (ht : t.length = 195) :
+    fillEncodingTableOn t x = fillEncodingTable x := by
+  simp only [fillEncodingTableOn, fillEncodingTable]
+  split
+  · rw [fillOn_eq_fillCore fill_cover t ht]
+  · rfl
+
+/-- in every store (= after every history of calls, kept objects and overwrites) the four entry points
+called on a new bitarray return what the history-free functions of `Model/Bptc.lean` return, and the
+result is the content of the new handle -/
+theorem calls_are_history_free (s : Store) (x : Bits) (r : Bool) :
+    step s (.encode (.lit x)) = s.ret (encode x)
+    ∧ step s (.data r (.lit x)) = s.ret (deinterleaveDataBits x r)
+    ∧ step s (.repair (.lit x)) = s.ret (repairIfNecessary x)
+    ∧ step s (.deint (.lit x)) = s.ret (deinterleaveAllBits x) := ⟨rfl, rfl, rfl, rfl⟩
+
+/-- a kept object is left as it is by every step that does not overwrite it (`flip`, `setAll`, or `fill`
+into that table): no call reaches into an object that was handed out earlier -/
+theorem kept_objects_untouched (s : Store) (hs : List Step) (k : Nat) (hk : k < s.size)
+    (ht : ∀ st ∈ hs, st.target ≠ some k) : (runSteps s hs).get k = s.get k :=
+  runSteps_frame s hs k hk ht
+
+/-- the property over histories: after ANY history `before`, `encode` of a 96-bit message hands out a
+code word `c` (kept as handle `k`); after ANY further history `after` that does not overwrite that
+handle, the kept object still is `c`, and the decoder returns exactly the message — from the kept object
+with and without repair, from any word within two inverted bits of it with repair — and repair returns
+the kept code word unaltered. -/
+theorem history_roundtrip (before after : List Step) (m : Bits) (hm : m.length = 96)
+    (e : Bits) (he : e.length = 196) (hw : weight e ≤ 2) :
+    let s₁ := runSteps Store.empty before
+    let k := s₁.size
+    ∃ c, step s₁ (.encode (.lit m)) = (s₁.push (some (.bits c)), .val c)
+      ∧ ((∀ st ∈ after, st.target ≠ some k) →
+          let s₂ := runSteps (s₁.push (some (.bits c))) after
+          s₂.get k = some (.bits c)
+          ∧ (∀ r, (step s₂ (.data r (.ref k))).2 = .val m)
+          ∧ (step s₂ (.repair (.ref k))).2 = .val c
+          ∧ (step s₂ (.data true (.lit (xorBits c e)))).2 = .val m) := by
+  intro s₁ k
+  obtain ⟨c, hc, hd⟩ := correct_le2 m hm e he hw
+  refine ⟨c, ?_, ?_⟩
+  · show s₁.ret (encode m) = _
+    rw [hc]; rfl
+  · intro ht s₂
+    have hk : s₂.get k = some (.bits c) := by
+      have := runSteps_frame (s₁.push (some (.bits c))) after k (by simp [Store.size_push, k]) ht
+      rw [this, Store.get_push_size]
+    have hc' : encode m = .ok c := hc
+    refine ⟨hk, ?_, ?_, ?_⟩
+    · intro r
+      obtain ⟨c', h1, h2⟩ := decode_encode m hm r
+      rw [hc'] at h1
+      cases h1
+      simp [step, Arg.bits, hk, h2, Store.ret]
+    · obtain ⟨c', h1, h2⟩ := repair_clean m hm
+      rw [hc'] at h1
+      cases h1
+      simp [step, Arg.bits, hk, h2, Store.ret]
+    · simp [step, Arg.bits, hd, Store.ret]
+
 /-! ## non-vacuity: the hypotheses are satisfiable by non-trivial values -/
 
 /-- a message and the historically failing double error (on-air positions 2 and 24) -/
@@ -116,5 +188,14 @@ example : exampleMessage.length = 96 ∧ exampleError.length = 196 ∧ weight ex
 example : ∃ c, encode exampleMessage = .ok c
     ∧ deinterleaveDataBits (xorBits c exampleError) true = .ok exampleMessage :=
   correct_le2 exampleMessage (by decide +kernel) exampleError (by decide +kernel) (by decide +kernel)
+
+/-- non-vacuity: a history that mixes a 196-bit re-encode of a block with non-zero reserved bits, a
+repair, a table that is filled, and overwrites of kept objects -/
+def exampleHistory : List Step :=
+  [.encode (.lit (List.replicate 4 true ++ List.replicate 192 false)), .make, .setAll 1 true,
+   .fill 1 (.lit exampleMessage), .repair (.ref 0), .flip 0 7, .encode (.lit exampleMessage), .flip 4 3]
+
+example : (runSteps Store.empty exampleHistory).size = 5
+    ∧ ∀ st ∈ exampleHistory, st.target ≠ some 5 := by decide +kernel
 
 end Dmr.C02
